@@ -503,6 +503,14 @@ func (k msgServer) RotateRecoveryAddress(goCtx context.Context, msg *types.MsgRo
 
 	txPool := k.custodyk.GetCustodyPoolByAddress(ctx, addr)
 	if txPool != nil {
+		// pending transfers are paid from, and their votes are recorded for, the rotated address
+		for _, record := range txPool.Record {
+			if record != nil && record.Transaction != nil && record.Transaction.FromAddress == msg.Address {
+				record.Transaction.FromAddress = msg.Recovery
+			}
+		}
+
+		k.custodyk.RotateCustodyVotes(ctx, addr, rotatedAddr)
 		k.custodyk.DropCustodyPool(ctx, addr)
 		k.custodyk.AddToCustodyPool(ctx, custodytypes.CustodyPool{
 			Address:      rotatedAddr,
